@@ -38,6 +38,9 @@ def _scenario(draw, tier):
         for _ in range(draw(st.integers(1, 5))):
             if draw(st.integers(0, 5)) == 0:
                 ops.append(["restart"])
+            elif draw(st.integers(0, 9)) == 0:
+                # an advance that the user's posterior interrupts by raising; the sampler is kept
+                ops.append(["interrupt", draw(st.sampled_from([1, 3, 12, 150])), draw(st.integers(1, 60))])
             elif cfg["kind"] == "ensemble":
                 ops.append(["advance", lc.maybe_long(draw, draw(st.one_of(st.sampled_from([0, 1, 2, 3]), st.integers(0, 25))), cfg)])
             elif draw(st.integers(0, 3)) == 0:
@@ -152,6 +155,20 @@ def run_arith(sc, V, stats):
                 if n1 != n0:
                     _viol(V, "length.consistent", "%s: chain_length is %d after save/load, it was %d before" % (h.kind, n1, n0))
                 _lengths_consistent(V, h, "after save/load")
+                continue
+            if op[0] == "interrupt":
+                # whole steps only: an interrupted advance adds between 0 and m samples (m x walkers: all or none of an
+                # iteration), and what is stored stays consistent with the reported length
+                try:
+                    fired = lc.op_interrupted_advance(h, op[1], op[2])
+                except (lc.StepExhausted, rctx.Runaway):
+                    break
+                stats["probe_operation_interrupted_by_the_posterior"] += int(fired)
+                n1 = h.length()
+                if not (n0 <= n1 <= n0 + op[1] * per) or (n1 - n0) % per or (not fired and n1 != n0 + op[1] * per):
+                    _viol(V, "advance.exact", "%s: advance(%d) %s grew chain_length from %d to %d"
+                          % (h.kind, op[1], "interrupted by the posterior" if fired else "(not interrupted)", n0, n1))
+                _lengths_consistent(V, h, "after an advance interrupted by the posterior")
                 continue
             try:
                 if op[0] == "step":
